@@ -252,6 +252,28 @@ func checkC19(c *core.Ctx) {
 	payloadProgress(c, r6)
 	r7 := c.Rule("R19.7", "D", "fixed-size tables indexed by a decoded enum value have an entry for every value decode code can produce")
 	tableIndexRange(c, r7)
+	r8 := c.Rule("R19.8", "D", "a fixed-length window of the input is not re-sliced by a packet value that can exceed the window's length")
+	{
+		p := c.P
+		roots := p.Roots()
+		n := 0
+		for _, fn := range core.SortedFns(roots.DecReach) {
+			if fn.Pkg == nil || len(fn.Blocks) == 0 || strings.HasSuffix(p.Pos(fn.Pos()), "_test.go") {
+				continue
+			}
+			var ri *guard.RootInfo
+			if d := roots.DecByFn[fn]; d != nil {
+				ri = &guard.RootInfo{Data: d.Data, MinLen: d.MinLen}
+			}
+			for i, w := range guard.WindowReslices(fn, ri) {
+				n++
+				r8.Violate(fmt.Sprintf("%s/window-reslice#%d", core.FnKey(fn), i+1), p.InstrPos(w.At), fmt.Sprintf("a %d-byte window of the input is re-sliced up to a packet value that can be as large as %d: the bound is checked against the window's capacity only, so a packet that ends with the window makes the slice expression panic (and a longer one silently includes bytes after the window)", w.Window, w.UB), nil)
+			}
+		}
+		if n == 0 {
+			r8.OK("decode/window-reslices", "", "no fixed-length window of the input is re-sliced by an unbounded packet value")
+		}
+	}
 	r5 := c.Rule("R19.5", "D", "length arithmetic on packet values is not done in uint8/uint16 where it can wrap before the result is used as a slice bound, index or length test")
 	narrowLengths(c, r5)
 	r4 := c.Rule("R19.4", "D", "cursor helpers: constant reads through a *[]byte cursor are covered by a length guard on the cursor's current contents, in the helper or at every call site")
